@@ -305,6 +305,27 @@ def run(ctx):
             src = collect_loop(rfs, rf, strip(it)) if it is not None else None
             if src is not None and any(call_is(x, f"{AC}._send_command_get_responses") for x in subterms(src)):
                 c_ok = True
+    # the valid responses of an exchange are handed on as they arrived: all of them, in arrival order (the last one decides the state) - the
+    # collected list itself, not a de-duplicated / sorted / sliced / reversed version of it
+    gr = ctx.fn(f"{AC}._send_command_get_responses")
+    for _pc, gt_, gn_, _st in summarize(prog, gr).returns:
+        if gn_ is None:
+            continue
+
+        def plain(t_, depth=0):
+            t_ = strip(t_)
+            if depth > 8:
+                return False
+            if t_[0] in ("loopvar", "mut", "comp", "list"):
+                return not any(x[0] == "call" and x[1][0] == "ext" and x[1][1] in ("dict.fromkeys", "set", "frozenset", "sorted", "reversed", "dict") for x in subterms(t_))
+            if t_[0] == "ite":
+                return plain(t_[2], depth + 1) and plain(t_[3], depth + 1)
+            if t_[0] == "call" and t_[1] == ("ext", "list") and len(t_[2]) == 1:
+                return plain(t_[2][0], depth + 1)
+            return False
+        ctx.ob("C01.c", gr.qual, plain(gt_), "the exchange returns its valid responses as collected (every one, in arrival order)", func=gr.qual, file=gr.module.rel, node=gn_,
+               detail={"returns": show(gt_)[:120]},
+               fail=f"the valid responses are transformed before they are returned (`{show(gt_)[:80]}`): duplicates / order decide which report wins")
     ctx.ob("C01.c", rf.qual, c_ok, "refresh collects every response of every command it sent (no filter)", func=rf.qual, file=rf.module.rel, construct="responses comprehension",
            fail="refresh filters or truncates the responses it collects")
     cmds = {x[1][1].split(".")[-1] for n, t in rfs.ta.terms_at.items() for x in subterms(t) if x[0] == "call" and x[1][0] == "func" and x[1][1].startswith(CMD) and x[1][1].endswith("Command")}
